@@ -110,8 +110,25 @@ func (c *Cluster) handleOffsetForLeaderEpoch(creq *clientReq) (kmsg.Response, er
 			nextEpoch := rp.LeaderEpoch + 1
 			si, mi, cur := pd.findBatchMeta(int64(nextEpoch), func(m *batchMeta) int64 { return int64(m.epoch) })
 
-			// Requested epoch is not yet known: keep -1 returns.
 			if cur == nil {
+				// No batch was written in an epoch after the
+				// requested one. If the requested epoch is older
+				// than our current epoch, the current epoch began
+				// at the log end (as Kafka's leader-epoch cache
+				// records when a replica becomes leader), so the
+				// newest epoch with data ends at the high watermark.
+				if rp.LeaderEpoch < pd.epoch {
+					var last *batchMeta
+					for i := len(pd.segments) - 1; i >= 0 && last == nil; i-- {
+						if idx := pd.segments[i].index; len(idx) > 0 {
+							last = &idx[len(idx)-1]
+						}
+					}
+					sp.LeaderEpoch = last.epoch
+					sp.EndOffset = pd.highWatermark
+					continue
+				}
+				// Requested epoch is not yet known: keep -1 returns.
 				sp.LeaderEpoch = -1
 				sp.EndOffset = -1
 				continue
